@@ -6,7 +6,7 @@
   db     := "D" idx "K" nkeys (xkey exp val)* "V" nvol xhex*
   exp    := "-" | int(ms)
   val    := "n" | "s" xhex | "i" int | "f" xhex | "L" n xhex* | "H" n (xfield scalar)*
-          | "S" n xhex* | "Z" n (xmember xscore)*
+          | "S" oid n xhex* | "Z" oid n (xmember xscore)*   (oid: pointer-sharing class, 0 = unshared)
   scalar := "s" xhex | "i" int | "f" xhex
 -/
 import SugarModel.Model.Dispatch
@@ -75,10 +75,11 @@ def pVal : P Val := do
   | "H" => do
       let n ← pNat
       return .hash (← rep n (do let f ← pBytes; let v ← pScalar; pure (f, v)))
-  | "S" => do let n ← pNat; return .set (← rep n pBytes)
+  | "S" => do let o ← pNat; let n ← pNat; return .set o (← rep n pBytes)
   | "Z" => do
+      let o ← pNat
       let n ← pNat
-      return .zset (← rep n (do let m ← pBytes; let sc ← pFlt; pure (m, sc)))
+      return .zset o (← rep n (do let m ← pBytes; let sc ← pFlt; pure (m, sc)))
   | t => throw s!"bad value tag {t}"
 
 def pExp : P (Option Int) := do
@@ -154,7 +155,7 @@ def pTransition : P Transition := do
   let pre ← pState
   expect "E"
   let post ← pState
-  pure ⟨seq, ⟨db, now, ⟨maxmem, pol⟩⟩, cmd, obs, pre, post⟩
+  pure ⟨seq, { db := db, now := now, cfg := ⟨maxmem, pol⟩ }, cmd, obs, pre, post⟩
 
 def parseLine (line : String) : Except String Transition :=
   let toks := (line.splitOn " ").filter (· ≠ "")
@@ -169,14 +170,24 @@ def sortK {α : Type} (m : KMap α) : KMap α := m.mergeSort fun a c => bytesLe 
 
 def canonVal : Val → Val
   | .hash h => .hash (sortK h)
-  | .set ms => .set (ms.mergeSort bytesLe)
-  | .zset ms => .zset (sortK ms)
+  | .set o ms => .set o (ms.mergeSort bytesLe)
+  | .zset o ms => .zset o (sortK ms)
   | v => v
 
 def canonDb (d : Db) : Db :=
   ⟨sortK (d.store.map fun (k, e) => (k, (⟨canonVal e.val, e.exp⟩ : Entry))), d.vol⟩
 
+/-- pointer classes renumbered canonically: an oid held by a single key becomes 0, shared ones are
+    numbered 1, 2, … by first occurrence in (database, key) order -/
+def renumberOids (s : State) : State :=
+  let all : List Nat := s.dbs.flatMap fun (_, d) => d.store.filterMap fun (_, e) => if e.val.oid != 0 then some e.val.oid else none
+  let shared : List Nat := (all.filter fun o => (all.filter (· == o)).length ≥ 2).eraseDups
+  let newId (o : Nat) : Nat := match shared.idxOf? o with
+    | some i => i + 1
+    | none => 0
+  { s with dbs := s.dbs.map fun (i, d) => (i, (⟨d.store.map fun (k, e) => (k, (⟨e.val.withOid (newId e.val.oid), e.exp⟩ : Entry)), d.vol⟩ : Db)) }
+
 def canonState (s : State) : State :=
-  ⟨(s.dbs.map fun (i, d) => (i, canonDb d)).mergeSort (fun a c => a.1 ≤ c.1), s.mem⟩
+  renumberOids ⟨(s.dbs.map fun (i, d) => (i, canonDb d)).mergeSort (fun a c => a.1 ≤ c.1), s.mem⟩
 
 end Sugar.Driver
